@@ -1,6 +1,6 @@
 (* Model driver for property C05: `(c05 (cmd ...) (pre ...) (tail ...) (alt ...))` runs
-   [Parser.parse_top] on  pre ++ ["--"] ++ tail,  pre ++ ["--"] ++ alt  and  pre ++ ["--"]
-   and prints the three canonical results separated by " ;; " (same text as harness/src/modes/c05.rs). *)
+   [Parser.parse_top] on  pre ++ ["--"] ++ tail,  pre ++ ["--"] ++ alt  and  pre ++ ["--"]  and  pre
+   and prints the four canonical results separated by " ;; " (same text as harness/src/modes/c05.rs). *)
 open Conv
 open Spec
 open Show
@@ -18,7 +18,8 @@ let run_c05 (a : Sx.t list) : string =
      | rc ->
        let ra = Parser.parse_top c (pre @ [dashdash] @ tail) in
        let rb = Parser.parse_top c (pre @ [dashdash] @ alt) in
-       show_outcome ra ^ " ;; " ^ show_outcome rb ^ " ;; " ^ show_outcome rc)
+       let rd = Parser.parse_top c pre in
+       show_outcome ra ^ " ;; " ^ show_outcome rb ^ " ;; " ^ show_outcome rc ^ " ;; " ^ show_outcome rd)
   | _ -> "badcase"
 
 let () =
